@@ -262,9 +262,10 @@ impl<R: RuleType> Error<R> {
         // end position is after a \n, so we want to point to the visual lf symbol
         if end_line_col.1 == 1 {
             let mut visual_end = end;
-            visual_end.skip_back(1);
-            let lc = visual_end.line_col();
-            end_line_col = (lc.0, lc.1 + 1);
+            if visual_end.skip_back(1) {
+                let lc = visual_end.line_col();
+                end_line_col = (lc.0, lc.1 + 1);
+            }
         };
 
         let mut line_iter = span.lines();
